@@ -12,6 +12,8 @@ import (
 	"fmt"
 	"strconv"
 	"sync"
+	"sync/atomic"
+	"time"
 
 	"github.com/spf13/afero"
 	grpcscen "github.com/yandex/pandora/components/guns/grpc/scenario"
@@ -22,13 +24,15 @@ import (
 	"github.com/yandex/pandora/core"
 	"github.com/yandex/pandora/core/aggregator/netsample"
 	"github.com/yandex/pandora/core/clientpool"
+	"github.com/yandex/pandora/core/coreutil"
+	"github.com/yandex/pandora/core/schedule"
 	"github.com/yandex/pandora/lib/mp"
 	"github.com/yandex/pandora/lib/netutil"
 	"github.com/yandex/pandora/lib/str"
 )
 
 var hammerObjs = []string{"mpnext", "mprand", "mpboth", "strrand", "tmplfuncs", "tmplhttp", "tmplhtml", "tmplgrpc", "clientpool",
-	"nextid", "samplepool", "dnscache"}
+	"nextid", "samplepool", "dnscache", "schedonce", "schedline", "schedunlim", "schedcomp"}
 
 // hammerBody returns the operation goroutine g performs at its i-th call (the shared object is created once, here).
 func hammerBody(obj string) (body func(g, i int) error, cleanup func()) {
@@ -40,8 +44,10 @@ func hammerBody(obj string) (body func(g, i int) error, cleanup func()) {
 func hammerBody1(obj string, cleanup *func()) func(g, i int) error {
 	switch obj {
 	case "mpnext":
+		// new segments keep being reached for the first time (a scenario with many `[next]` paths) while the older ones
+		// are being counted: an insert into the counter map is always in flight
 		it := mp.NewNextIterator(1)
-		return func(g, i int) error { it.Next("seg" + strconv.Itoa(i%3)); return nil }
+		return func(g, i int) error { it.Next(hammerSegment(i)); return nil }
 	case "mprand":
 		it := mp.NewNextIterator(1)
 		return func(g, i int) error { it.Rand(7 + i%5); return nil }
@@ -49,7 +55,7 @@ func hammerBody1(obj string, cleanup *func()) func(g, i int) error {
 		it := mp.NewNextIterator(1)
 		return func(g, i int) error {
 			if (g+i)%2 == 0 {
-				it.Next("seg" + strconv.Itoa(i%3))
+				it.Next(hammerSegment(i))
 			} else {
 				it.Rand(5)
 			}
@@ -121,6 +127,34 @@ func hammerBody1(obj string, cleanup *func()) func(g, i int) error {
 			a.Report(s)
 			return nil
 		}
+	case "schedonce", "schedline", "schedunlim", "schedcomp":
+		// ONE schedule object shared by all instances (the engine's default: no rps-per-instance), behind the engine's
+		// finish callback; the instances' waiters call Next and Left. Sized so that it finishes while being hammered.
+		var sch core.Schedule
+		switch obj {
+		case "schedonce":
+			sch = schedule.NewOnce(4000)
+		case "schedline":
+			sch = schedule.NewLine(1e6, 2e6, 3*time.Millisecond)
+		case "schedunlim":
+			sch = schedule.NewUnlimited(2 * time.Millisecond)
+		default:
+			sch = schedule.NewComposite(schedule.NewOnce(1500), schedule.NewConst(1e6, time.Millisecond), schedule.NewOnce(1500),
+				schedule.NewUnlimited(time.Millisecond), schedule.NewOnce(100))
+		}
+		var finished atomic.Int64
+		sch = coreutil.NewCallbackOnFinishSchedule(sch, func() { finished.Add(1) })
+		return func(g, i int) error {
+			if (g+i)%3 == 0 {
+				_ = sch.Left()
+			} else {
+				_, _ = sch.Next()
+			}
+			if finished.Load() > 1 {
+				return fmt.Errorf("finish callback ran %d times", finished.Load())
+			}
+			return nil
+		}
 	case "dnscache":
 		c := &netutil.SimpleDNSCache{}
 		return func(g, i int) error {
@@ -133,6 +167,15 @@ func hammerBody1(obj string, cleanup *func()) func(g, i int) error {
 		}
 	}
 	return nil
+}
+
+// hammerSegment: call i uses one of the three newest segments; a new segment appears every 25 calls.
+func hammerSegment(i int) string {
+	k := i/25 - i%3
+	if k < 0 {
+		k = 0
+	}
+	return "seg" + strconv.Itoa(k)
 }
 
 func runHammerInProc(kv map[string]string) string {
